@@ -39,11 +39,11 @@ def units(tier, seed):
         {"sid": "struct", "family": "struct", "size": 8 if q else 9},
         {"sid": "topmarks", "family": "topmarks", "size": 6 if q else 7},
         {"sid": "basic", "family": "links", "size": 5 if q else 6},
+        {"sid": "attrs", "family": "attrs", "size": 4 if q else 5, "blocks": 16},
     ]
     extra = [
         {"sid": "list", "family": "lists_q", "size": 10 if q else 14},
         {"sid": "table", "family": "table", "size": 12 if q else 18},
-        {"sid": "attrs", "family": "attrs", "size": 4 if q else 5},
         {"sid": "iso", "family": "iso", "size": 8 if q else 10},
     ]
     if q:
@@ -249,6 +249,21 @@ def check_doc(c, d, res, node=None, derive=True):
             call("c09.text_content", {"node_at": rn.pos}, lambda: ln.text_content, want_text)
         if rn is ref.root:
             continue
+        # results are plain records: they must stay valid while further lookups are made
+        held = [(off, rnd, ln.content.find_index(off, rnd)) for off in range(cs + 1) for rnd in (-1, 1)]
+        held_ca = [(off, ln.child_after(off), ln.child_before(off)) for off in range(cs + 1)]
+        for off, rnd, rec in held:
+            fi = ref.find_index(rn, off, rnd)
+            if (rec["index"], rec["offset"]) != fi:
+                bad("c09.find_index.held-result", {"node_at": rn.pos, "offset": off, "round": rnd},
+                    [rec["index"], rec["offset"]], list(fi))
+                break
+        for off, ca_l, cb_l in held_ca:
+            ca = ref.child_after(rn, off)
+            cb = ref.child_before(rn, off)
+            if _ci(ca_l) != (_jk(_rj(ca[0])), ca[1], ca[2]) or _ci(cb_l) != (_jk(_rj(cb[0])), cb[1], cb[2]):
+                bad("c09.child_after.held-result", {"node_at": rn.pos, "offset": off}, [_ci(ca_l), _ci(cb_l)], None)
+                break
         for off in range(cs + 1):
             ex = {"node_at": rn.pos, "offset": off}
             for rnd in (-1, 1):
